@@ -743,7 +743,7 @@ def dedup_violations(ctx):
                 ctx.count('further inputs for ' + key)
                 return
             seen[key] = 1
-        orig(what, data=data, key=key, no_input=no_input, broken=broken)
+        orig(what + (' [key=%s]' % key if key else ''), data=data, key=key, no_input=no_input, broken=broken)
     ctx.violation = violation
 
 def run(ctx):
@@ -1018,7 +1018,13 @@ def history(calls):
             nus = {axes[k]: val(a['nu' if d == 1 else 'nu%d' % (k + 1)]) for k in range(d)}
             M = {(axes[i], axes[j]): a['m%d%d' % (i + 1, j + 1)] for i in range(d) for j in range(d) if i != j and a['m%d%d' % (i + 1, j + 1)] != 0} if d > 1 else {}
             fr = {axes[k]: bool(a['frozen' if d == 1 else 'frozen%d' % (k + 1)]) for k in range(d)}
-            H.append(('int', a['T'], nus, M, fr, list(axes)))
+            # Integration._compute_dt at the start of the integration (default timescale_factor 1e-3): when the whole
+            # integration is a single step only the end sizes are ever evaluated, the shape of the size function is unobservable
+            maxvm = max(max(0.25 / nus[axes[i]][0], sum(abs(M.get((axes[i], axes[j]), 0.0)) for j in range(d) if j != i)) for i in range(d))
+            single = 1e-3 / maxvm >= a['T']
+            if single:
+                nus = {k: [v[0], v[-1]] for k, v in nus.items()}
+            H.append(('int', a['T'], nus, M, fr, list(axes), single))
         elif fn in ('phi_1D_to_2D', 'phi_2D_to_3D_split_1', 'phi_2D_to_3D_split_2', 'phi_2D_to_3D_admix', 'phi_3D_to_4D', 'phi_4D_to_5D'):
             d = len(axes)
             if fn == 'phi_1D_to_2D': props = [1]
@@ -1050,7 +1056,9 @@ def history(calls):
 
 def match_histories(H0, H1):
     """(ok, same_axis_order, why): is there a relabelling under which the two histories coincide?  same_axis_order: every
-    integration with migration then also runs with the populations in the same order"""
+    integration then also runs with the populations in the same order (the alternating-direction scheme treats the
+    corners of the frequency cube direction by direction, so the order matters at the level of the time-step error
+    even without migration: three_pops on the same density with axes reversed differs by 1e-2 for a random density)"""
     if [e[0] for e in H0] != [e[0] for e in H1]:
         return False, False, 'event sequences differ: %s vs %s' % ([e[0] for e in H0], [e[0] for e in H1])
     why = ['']
@@ -1070,26 +1078,26 @@ def match_histories(H0, H1):
         if t == 'init':
             if not close(e0[2], e1[2]):
                 why[0] = 'initial size %r vs %r' % (e0[2], e1[2]); return False, False
-            return go(k + 1, dict(m, **{e0[1]: e1[1]}), same)
+            return go(k + 1, {**m, e0[1]: e1[1]}, same)
         if t == 'int':
-            okk = close(e0[1], e1[1]) and dmatch(e0[2], e1[2], m, lambda u, v: all(close(x, y) for x, y in zip(u, v))) \
+            okk = close(e0[1], e1[1]) and e0[6] == e1[6] and dmatch(e0[2], e1[2], m, lambda u, v: all(close(x, y) for x, y in zip(u, v))) \
                 and dmatch(e0[3], e1[3], m, close) and dmatch(e0[4], e1[4], m, lambda u, v: u == v)
             if not okk:
                 why[0] = 'integration %d differs under the relabelling (T %r vs %r)' % (k, e0[1], e1[1]); return False, False
-            s2 = same and (not e0[3] or [m[x] for x in e0[5]] == e1[5])
+            s2 = same and [m[x] for x in e0[5]] == e1[5]
             return go(k + 1, m, s2)
         if t == 'split':
             if m.get(e0[1]) != e1[1]:
                 why[0] = 'event %d: another population is split' % k; return False, False
             for c in (e1[2], e1[2][::-1]):
-                r = go(k + 1, dict(m, **{e0[2][0]: c[0], e0[2][1]: c[1]}), same)
+                r = go(k + 1, {**m, e0[2][0]: c[0], e0[2][1]: c[1]}, same)
                 if r[0]:
                     return r
             return False, False
         if t == 'admix':
             if not dmatch(e0[1], e1[1], m, close):
                 why[0] = 'event %d: admixture proportions differ' % k; return False, False
-            return go(k + 1, dict(m, **{e0[2]: e1[2]}), same)
+            return go(k + 1, {**m, e0[2]: e1[2]}, same)
         if t == 'pulse':
             if m.get(e0[1]) != e1[1] or not dmatch(e0[2], e1[2], m, close):
                 why[0] = 'event %d: pulse differs' % k; return False, False
@@ -1106,6 +1114,10 @@ def match_histories(H0, H1):
     ok, same = go(0, {}, True)
     return ok, same, '' if ok else why[0]
 
+KEY_INIT_PHI = 'compute_sfs:initial-phi-ignores-root-size'
+KEY_EXPORT_ADMIX = 'export:admixed-population-reimported-as-merger'
+EXPORT_TOL_REORDERED = 2e-3
+
 def export_phase(ctx, progs, pulses_bad, pnu):
     rng = ctx.rng
     if progs is None:
@@ -1118,7 +1130,7 @@ def export_phase(ctx, progs, pulses_bad, pnu):
             progs.append({'ops': ops, 'ns': [rng.randint(1, 3 if d <= 3 else 2) for _ in range(d)], 'pts': {1: 14, 2: 12, 3: 9, 4: 6, 5: 5}[maxd],
                           'Nref': rng.choice([8.0, 16.0, 100.0, 1000.0]), 'gen_time': rng.choice([None, None, 25.0]), 'tag': 'random'})
         for ops, d, tag in forced_programs():
-            progs.append({'ops': ops, 'ns': [1] * d, 'pts': {4: 6, 5: 5}[d], 'Nref': 4.0, 'gen_time': None, 'tag': tag})
+            progs.append({'ops': ops, 'ns': [1] * d, 'pts': {4: 6, 5: 5}[d], 'Nref': 8.0, 'gen_time': None, 'tag': tag})
         for f, sampled, ns, pts in YAMLS:
             progs.append({'yaml': os.path.join(TESTS_DEMES, f), 'sampled': sampled, 'ns': ns, 'pts': pts, 'tag': 'yaml:' + f,
                           'Nref': {'bottleneck.yaml': 1e4, 'browning_america.yaml': 7310, 'gutenkunst_ooa.yaml': 7300, 'linear_size_function_example.yaml': 100,
@@ -1134,41 +1146,57 @@ def export_phase(ctx, progs, pulses_bad, pnu):
         ctx.count('export tag=' + p['tag'].split(':')[0])
         for op in ops:
             ctx.count('export op ' + op[0])
-        d_end = len(p['ns'])
-        # known classes: pulse functions whose recorded event is wrong / missing
-        key = None
+        # input classes in which the current source is known to deviate
+        keys = []
         dcur = 0
         for op in ops:
-            if op[0] == 'phi_1D': dcur = 1
-            elif op[0] in ('split', 'admix_new'): dcur += 1
+            if op[0] == 'phi_1D':
+                dcur = 1
+                if op[1] != 1 and not pnu:
+                    keys.append(KEY_INIT_PHI)
+            elif op[0] == 'split': dcur += 1
+            elif op[0] == 'admix_new':
+                fs = op[1] + [1 - sum(op[1])]
+                if sum(1 for f in fs if f != 0) > 1:
+                    keys.append(KEY_EXPORT_ADMIX)
+                dcur += 1
             elif op[0] == 'remove': dcur -= 1
             elif op[0] == 'pulse':
                 fn = PULSES[dcur][op[1] - 1]
-                if fn in pulses_bad and key is None:
-                    key = 'export:%s-%s' % (fn, 'records-no-event' if pulses_bad[fn] is None else 'records-wrong-event')
+                if fn in pulses_bad:
+                    keys.append('export:%s-%s' % (fn, 'records-no-event' if pulses_bad[fn] is None else 'records-wrong-event'))
         data = {'kind': 'export', 'case': {k: v for k, v in p.items() if k != 'id'}}
         if 'error' in r:
+            key = None
+            if KEY_EXPORT_ADMIX in keys and 'is not in list' in r['error']:
+                key = KEY_EXPORT_ADMIX
+            elif keys:
+                key = [k for k in keys if k != KEY_EXPORT_ADMIX][0] if [k for k in keys if k != KEY_EXPORT_ADMIX] else None
             ctx.obligation('export case %d (%s): export and re-import run' % (p['id'], p['tag']), False, 'predicate', r['error'][:200])
             if key:
                 ctx.obligations[-1]['known_key'] = key
-            ctx.violation('exporting / re-importing a native program raises %s (program %s)' % (r['error'][:150], json.dumps(ops)[:300]),
+            ctx.violation('exporting and re-importing a native program raises %s (program %s)' % (r['error'][:150], json.dumps(ops)[:300]),
                           data=dict(data, impl=r.get('tb')), key=key)
             continue
         sig = json.dumps(ops) if ops else p['tag']
         ctx.case(signature=sig, sample={'ops': ops[:8], 'exported_demes': [d['name'] for d in r['graph']['demes']][:10], 'fs0_head': r['fs0']['data'][:4]})
+        okp, same, why = match_histories(history(r['calls0']), history(r['calls1']))
+        ctx.count('export: re-import integrates in the same population order' if same else 'export: re-import integrates in another population order')
         e = fs_rel(r['fs0'], r['fs1'])
-        ok = e is not None and e <= EXPORT_TOL
+        tol = EXPORT_TOL if same or not okp else EXPORT_TOL_REORDERED
+        ok = e is not None and e <= tol
         if ok and e > 0:
-            ctx.err('export:spectrum', int(math.floor(math.log2(e))), 'tol 1e-8 relative to the largest entry')
-        ctx.obligation('export case %d (%s): re-imported spectrum = original spectrum' % (p['id'], p['tag']), ok, 'predicate',
-                       '' if ok else 'relative deviation %r' % (e,))
-        okp, why = same_integrations(r['calls0'], r['calls1'])
-        ctx.obligation('export case %d (%s): re-imported program integrates the same sizes, times and migration up to relabelling' % (p['id'], p['tag']),
+            ctx.err('export:spectrum (same order)' if same else 'export:spectrum (other order: operator splitting differs)',
+                    int(math.floor(math.log2(e))), 'tol %g relative to the largest entry' % tol)
+        ctx.obligation('export case %d (%s): re-imported program = original program up to relabelling of the populations' % (p['id'], p['tag']),
                        okp, 'correspondence', why)
+        ctx.obligation('export case %d (%s): re-imported spectrum = original spectrum (tol %g)' % (p['id'], p['tag'], tol), ok, 'predicate',
+                       '' if ok else 'relative deviation %r' % (e,))
         if not ok or not okp:
+            key = keys[0] if keys else None
             for o in ctx.obligations[-2:]:
                 if not o['ok'] and key:
                     o['known_key'] = key
             ctx.violation('export + re-import does not reproduce the model (%s; spectrum deviation %s; %s) program %s'
-                          % (p['tag'], '%.3g' % e if e is not None else 'shape/mask', why or 'integrations agree', json.dumps(ops)[:400]),
+                          % (p['tag'], '%.3g' % e if e is not None else 'shape/mask', why or 'programs agree', json.dumps(ops)[:400]),
                           data=dict(data, deviation=e, why=why, exported=r['graph']), key=key)
